@@ -9,7 +9,10 @@ QUICK_N = 2500
 THOROUGH_N = 50000
 SHARD = 250
 COQ_PRELUDE = "From MV Require Import Model.ErrorPage.\n"
-RULE = ("50% format_error(status, message) with messages over a markup/whitespace/newline/indentation/unicode/surrogate token "
+RULE = ("10% whole exchanges through a real HttpLayer (Expect: 100-continue or not, interim 1xx responses, request/response streaming, "
+        "Content-Length/chunked/close-delimited responses) with a fault at a generated point (upstream close or garbage mid-body or before the head, "
+        "malformed head, connect error, body size limit): the bytes sent to the client are read by an independent response-stream reader and an "
+        "error page must be a complete 4xx/5xx response at a message boundary, never inside another response. Of the rest: 50% format_error(status, message) with messages over a markup/whitespace/newline/indentation/unicode/surrogate token "
         "dictionary (exercising html.escape and textwrap.dedent margins); 20% make_error_response; 30% end-to-end: a real "
         "HttpLayer (regular mode, HTTP/1) is sent malformed or unroutable requests carrying markup in the request line, header "
         "names/values, authority, or gets an upstream connect error / oversized body, and the bytes it answers are parsed. "
@@ -42,6 +45,17 @@ E2E = [
 def gen(rng, n, tier):
     out = []
     for _ in range(n):
+        if rng.chance(0.10):
+            # a whole exchange with a fault at a generated point: the error page (if any) must be a complete response
+            # that starts at a message boundary of the bytes sent to the client
+            total = rng.choice([0, 1, 6, 40])
+            out.append({"k": "xchg", "expect": rng.chance(0.5), "method": rng.choice(["POST", "PUT", "GET"]),
+                        "req_body": rng.randint(0, 8), "stream_req": rng.chance(0.3), "stream_resp": rng.chance(0.6),
+                        "resp_framing": rng.choice(["cl", "chunked", "close"]), "resp_total": total,
+                        "resp_sent": rng.randint(0, total), "interim": rng.choice([None, None, 100, 102, 103]),
+                        "fault": rng.choice(["close", "garbage", "connect_err", "limit", "none", "close_before_head", "bad_head"]),
+                        "markup": rng.choice(["<script>x</script>", "<b>&\"'", "plain"])})
+            continue
         r = rng.random()
         msg = "".join(rng.choice(TOK) for _ in range(rng.randint(0, 7)))
         if rng.chance(0.04):
@@ -99,6 +113,8 @@ def run_impl(case):
         reason = status_codes.RESPONSES.get(case["code"], "Unknown")
         return {"reason": reason, "line_reason": status_codes.RESPONSES.get(case["code"], ""), "ver": version.MITMPROXY,
                 "resp": make_error_response(case["code"], _s(case["msg"])).hex()}
+    if case["k"] == "xchg":
+        return run_xchg(case)
     over = {}
     if case["limit"]:
         over["body_size_limit"] = case["limit"]
@@ -108,6 +124,120 @@ def run_impl(case):
     d.start()
     d.data(0, bytes.fromhex(case["client"]))
     return {"to_client": d.sent(0).hex(), "crashed": d.crashed, "hooks": d.hook_names()}
+
+
+def run_xchg(case):
+    over = {}
+    if case["fault"] == "limit":
+        over["body_size_limit"] = "3"
+    err = ("refused " + case["markup"]) if case["fault"] == "connect_err" else None
+
+    def policy(hook, drv):
+        f = hook.args()[0]
+        if hook.name == "requestheaders" and case["stream_req"]:
+            f.request.stream = True
+        if hook.name == "responseheaders" and case["stream_resp"]:
+            f.response.stream = True
+    d = Driver(lambda ctx: http_layers.HttpLayer(ctx, HTTPMode.regular), options_overrides=over, policy=policy,
+               connect=(lambda conn, drv: err) if err else None)
+    d.start()
+    nb = case["req_body"] if case["method"] != "GET" else 0
+    head = (f"{case['method']} http://example.com/{case['markup'].replace(' ', '')} HTTP/1.1\r\nHost: example.com\r\n"
+            + (f"Content-Length: {nb}\r\n" if case["method"] != "GET" else "")
+            + ("Expect: 100-continue\r\n" if case["expect"] else "") + "\r\n").encode()
+    d.data(0, head)
+    if nb and d.crashed is None:
+        d.data(0, b"b" * nb)
+    have_server = len(d.conns) > 1 and any(t[0] == "open" for t in d.trace) and not err
+    if have_server and d.crashed is None:
+        if case["interim"]:
+            d.data(1, b"HTTP/1.1 %d Interim\r\n\r\n" % case["interim"])
+        if case["fault"] == "close_before_head":
+            d.close(1)
+        elif case["fault"] == "bad_head":
+            d.data(1, b"HTTP/1.1 <200> " + case["markup"].encode() + b"\r\n\r\n")
+        else:
+            total, sent = case["resp_total"], case["resp_sent"]
+            fr = case["resp_framing"]
+            h = b"HTTP/1.1 200 OK\r\n" + (b"Content-Length: %d\r\n\r\n" % total if fr == "cl" else
+                                            b"Transfer-Encoding: chunked\r\n\r\n" if fr == "chunked" else b"\r\n")
+            d.data(1, h)
+            body = b"r" * sent
+            if d.crashed is None and sent:
+                d.data(1, (b"%x\r\n%s\r\n" % (sent, body)) if fr == "chunked" else body)
+            if d.crashed is None:
+                if case["fault"] == "garbage" and fr == "chunked":
+                    d.data(1, b"zz<" + case["markup"].encode() + b">\r\n")
+                elif case["fault"] in ("close", "garbage"):
+                    d.close(1)
+                elif case["fault"] in ("none", "limit"):
+                    rest = b"r" * (total - sent)
+                    if fr == "chunked":
+                        d.data(1, ((b"%x\r\n%s\r\n" % (len(rest), rest)) if rest else b"") + b"0\r\n\r\n")
+                    elif fr == "cl":
+                        if rest:
+                            d.data(1, rest)
+                    else:
+                        d.close(1)
+    return {"to_client": d.sent(0).hex(), "crashed": d.crashed, "hooks": d.hook_names(), "method": case["method"],
+            "client_closed": any(t[0] == "close" and t[1] == 0 for t in d.trace)}
+
+
+def read_responses(raw: bytes, method: str):
+    """independent reader of the response stream a client sees: list of (status, headers, body, complete?) + rest"""
+    out = []
+    while raw:
+        head, sep, rest = raw.partition(b"\r\n\r\n")
+        if not sep:
+            out.append((None, {}, raw, False))
+            return out
+        lines = head.split(b"\r\n")
+        parts = lines[0].split(b" ", 2)
+        if len(parts) < 2 or not parts[0].startswith(b"HTTP/1.") or not parts[1].isdigit():
+            out.append((None, {}, raw, False))
+            return out
+        code = int(parts[1])
+        h = {}
+        for l in lines[1:]:
+            k, _, v = l.partition(b":")
+            h[k.strip().lower()] = v.strip()
+        if 100 <= code < 200 or code in (204, 304) or method == "HEAD":
+            out.append((code, h, b"", True))
+            raw = rest
+        elif b"chunked" in h.get(b"transfer-encoding", b"").lower():
+            body, ok = b"", False
+            while True:
+                line, sep2, rest2 = rest.partition(b"\r\n")
+                if not sep2:
+                    break
+                try:
+                    n = int(line.split(b";")[0], 16)
+                except ValueError:
+                    break
+                if n == 0:
+                    t, sep3, rest3 = rest2.partition(b"\r\n")
+                    if sep3 and t == b"":
+                        ok, rest = True, rest3
+                    break
+                if len(rest2) < n + 2:
+                    break
+                body += rest2[:n]
+                rest = rest2[n + 2:]
+            out.append((code, h, body if ok else rest, ok))
+            if not ok:
+                return out
+            raw = rest
+        elif h.get(b"content-length", b"").isdigit():
+            n = int(h[b"content-length"])
+            if len(rest) < n:
+                out.append((code, h, rest, False))
+                return out
+            out.append((code, h, rest[:n], True))
+            raw = rest[n:]
+        else:
+            out.append((code, h, rest, True))   # read-until-close
+            return out
+    return out
 
 
 def coq_case(case, obs):
@@ -170,6 +300,27 @@ def oracle(case, obs):
             if norm(_html.unescape(dyn)) != norm(want) and "&" not in want:
                 v.append({"key": "message-mangled", "what": f"unescaped page text {dyn[:80]!r} is not the message {want[:80]!r} (whitespace ignored)"})
         return v
+    if case["k"] == "xchg":
+        if obs["crashed"]:
+            return [{"key": "layer-crash", "what": f"HTTP layer raised {obs['crashed']}"}]
+        raw = bytes.fromhex(obs["to_client"])
+        v = []
+        msgs = read_responses(raw, obs["method"])
+        for code, h, body, complete in msgs:
+            is_page = body.lstrip().startswith(b"<html>") and b"</html>" in body
+            if code is None:
+                v.append({"key": "error-response-framing", "what": f"bytes sent to the client do not continue with a response head: {body[:80]!r}"})
+            elif not complete and b"<html>" in body and b"<title>" in body:
+                v.append({"key": "error-page-inside-message", "what": f"an error page was written into the unfinished body of a {code} response: {body[:100]!r}"})
+            elif complete and code == 200 and b"<html>\n" in body and b"<title>" in body:
+                v.append({"key": "error-page-inside-message", "what": f"an error page was written into the body of the relayed 200 response: {body[:100]!r}"})
+            elif complete and is_page and code >= 400:
+                if not h.get(b"content-type", b"").lower().startswith(b"text/html"):
+                    v.append({"key": "content-type", "what": f"HTML error page without an HTML content type: {h.get(b'content-type')!r}"})
+                if b"content-length" not in h:
+                    v.append({"key": "error-response-framing", "what": "error page response without Content-Length"})
+                v += page_violations(body, "error response")
+        return v
     raw = bytes.fromhex(obs["resp"] if case["k"] == "resp" else obs["to_client"])
     if case["k"] == "e2e":
         if obs["crashed"]:
@@ -191,12 +342,17 @@ def oracle(case, obs):
 
 
 def nontrivial(case, obs):
+    if case["k"] == "xchg":
+        return bool(obs["to_client"])
     if case["k"] in ("page", "resp"):
         return any(c in (38, 60, 62, 34, 39, 10) for c in case["msg"])
     return bool(obs["to_client"])
 
 
 def classify(case, obs):
+    if case["k"] == "xchg":
+        raw = bytes.fromhex(obs["to_client"])
+        return ["xchg", "xchg-page" if b"<html>" in raw else "xchg-nopage", "xchg-fault-" + case["fault"]]
     if case["k"] == "e2e":
         raw = bytes.fromhex(obs["to_client"])
         return ["e2e", "e2e-page" if b"<html>" in raw else ("e2e-other" if raw else "e2e-silent")]
